@@ -730,7 +730,8 @@ func genRequest(c *hx.Ctx, r *hx.Rng, vhs []vhost) request {
 	}
 	for _, k := range []string{"k1", "k2"} {
 		if r.Chance(55) {
-			rq.hdrs[k] = r.PickS([]string{"v1", "v2", "", "v3"})
+			// now and then the text of a configured pattern itself (a regex matcher must not compare literally)
+			rq.hdrs[k] = r.PickS([]string{"v1", "v2", "", "v3", "v1", "v2", "^$", "^v[12]$"})
 		}
 	}
 	if r.Chance(55) {
